@@ -498,14 +498,21 @@ def multisig_order(ctx):
     ctx.saw('pop order: %s' % pops)
     exp_order = ['n = decode_num(self.pop())', 'pubkeys.append(self.pop())', 'm = decode_num(self.pop())', 'signatures.append(self.pop())', 'self.pop()']
     ctx.require(pops == exp_order, q, 'pop sequence is %s, consensus order is n, keys, m, signatures, dummy' % pops, fn)
-    loops = [n for n in walk_no_nested(fn) if isinstance(n, ast.For) and 'verify' in unparse(n)]
+    allv = [n for n in walk_no_nested(fn) if isinstance(n, (ast.For, ast.While)) and 'verify' in unparse(n)]
+    loops = [n for n in allv if not any(o is not n and any(x is n for x in ast.walk(o)) for o in allv)]
     if len(loops) != 1:
-        ctx.undecided('op_checkmultisig: matching loop not found')
+        ctx.undecided('op_checkmultisig: matching loop not found (%d candidates)' % len(loops))
     lp = loops[0]
+    if not isinstance(lp, ast.For):
+        ctx.undecided('op_checkmultisig: matching loop is not a for loop')
     ctx.saw('matching loop: for %s in %s' % (unparse(lp.target), unparse(lp.iter)))
-    ctx.require(unparse(lp.iter) == 'pubkeys', q, 'matching loop iterates over `%s`, expected one pass over the keys' % unparse(lp.iter), lp,
+    ctx.require(unparse(lp.iter) == 'pubkeys', q, 'matching loop iterates over `%s`, expected ONE pass over the keys' % unparse(lp.iter), lp,
                 'signatures out of key order, or one signature used for several keys, would satisfy m-of-n')
+    nested = [n for n in ast.walk(lp) if isinstance(n, (ast.For, ast.While)) and n is not lp]
+    if nested:
+        ctx.violate(q, 'nested loop `for %s in %s` inside the matching loop: a signature is tried against keys that were already passed' % (
+            unparse(nested[0].target) if isinstance(nested[0], ast.For) else '', unparse(nested[0].iter) if isinstance(nested[0], ast.For) else unparse(nested[0].test)), nested[0],
+            'signature/key ordering is not enforced and one key can satisfy several signatures: consensus rejects such spends')
+        return
     body = unparse(lp)
     ctx.require('signatures[sigcount]' in body and 'sigcount += 1' in body, q, 'the signature cursor is not advanced on success only', lp)
-    nested = [n for n in ast.walk(lp) if isinstance(n, (ast.For, ast.While)) and n is not lp]
-    ctx.require(not nested, q, 'nested loop inside the key walk: a signature may be matched against keys already passed', lp)
